@@ -66,7 +66,8 @@ def judge(ctx, backend, behs, results, count_trace=True):
 def run_protocol(ctx, module, cmd, backend, quick_pairs=1200, thorough_pairs=None, curves=CURVES):
     quick = ctx.tier == 'quick'
     r1 = ctx.tlc(module, module + '_gen1.cfg', workers=1)
-    behs = r1.beh
+    rp = ctx.tlc(module, module + '_pad.cfg', workers=1)
+    behs = r1.beh + rp.beh
     r2 = ctx.tlc(module, module + '_gen2.cfg', workers=1, timeout=1800)
     pairs = [b for b in r2.beh if len(b['edits']) == 2]
     ctx.extra['pair_behaviours_total'] = len(pairs)
@@ -111,3 +112,95 @@ def run_protocol(ctx, module, cmd, backend, quick_pairs=1200, thorough_pairs=Non
     for b in behs[:2] + sample[:3]:
         ctx.sample(b)
     return behs, sample
+
+
+def key_checks(ctx, backend, curves):
+    """Setup-side of C01/C02: keys of every shape / corpus circuit are checked against the circuit
+    (Go port of the predicates) and the recorded key shapes are validated by TLC against
+    Groth16Setup.tla / PlonkTrace.tla."""
+    recs = []
+    for curve in curves:
+        recs += [r for r in ctx.harness(['keycheck', '--curve', curve, '--par', '16'], timeout=3600) if r['backend'] == backend]
+    if not recs:
+        raise vlib.Infra('keycheck produced nothing')
+    for r in recs:
+        ctx.case(key='%s key %s %s' % (backend, r['curve'], r['circuit']), nontrivial=True)
+        for pb in r.get('problems') or []:
+            if pb.startswith('INFRA') or pb.startswith('panic'):
+                raise vlib.Infra('keycheck %s %s: %s' % (r['curve'], r['circuit'], pb))
+            ctx.report('%s setup: key does not match the circuit: %s (circuit=%s)' % (backend, re_digits(pb), r['circuit']),
+                       {'curve': r['curve'], 'circuit': r['circuit'], 'problem': pb})
+    if backend == 'groth16':
+        seen, items = set(), []
+        for r in recs:
+            lay = dict(r['layout'])
+            lay['rec'] = r['rec']
+            lay['name'] = r['circuit']
+            k = json.dumps(lay, sort_keys=True)
+            if k in seen or lay['nbWires'] > 60:
+                continue
+            seen.add(k)
+            items.append(vlib.tla(lay))
+        mc = ('---- MODULE Groth16SetupRec ----\nEXTENDS Groth16Setup\nRecLayouts == %s\n'
+              'RecordedKeysOK == KeyShapeOK(lay, lay.rec)\n====\n') % vlib.tla_set(items)
+        cfg = 'SPECIFICATION Spec\nCONSTANTS\n  Layouts <- RecLayouts\nINVARIANTS PartitionOK RecordedKeysOK\nCHECK_DEADLOCK FALSE\n'
+        t = ctx.tlc('Groth16SetupRec', 'Groth16SetupRec.cfg', extra_files={'Groth16SetupRec.tla': mc, 'Groth16SetupRec.cfg': cfg},
+                    workers=4, expect=('ok', 'invariant', 'error'), timeout=1800)
+        ctx.traces += len(items)
+        if t.status != 'ok':
+            bad_go = any(r.get('problems') for r in recs)
+            # TLC rejects a recorded key shape: decide which by the Go port of the same predicate
+            culprit = [r for r in recs if not sigma_ok(r)]
+            if culprit:
+                for r in culprit:
+                    ctx.report('groth16 setup: commitment keys are not independent / consistent (circuit=%s)' % r['circuit'],
+                               {'curve': r['curve'], 'circuit': r['circuit'], 'rec': r['rec'], 'tlc': t.violated})
+            elif not bad_go:
+                sizes = [r for r in recs if not sizes_ok(r)]
+                for r in sizes:
+                    ctx.report('groth16 setup: key sizes do not match the wire partition (circuit=%s)' % r['circuit'],
+                               {'curve': r['curve'], 'circuit': r['circuit'], 'rec': r['rec'], 'layout': r['layout']})
+                if not sizes:
+                    raise vlib.Infra('TLC rejected the recorded key shapes (%s) but no record explains it:\n%s' % (t.violated, '\n'.join(t.output.splitlines()[-25:])))
+    else:
+        seen, items = set(), []
+        for r in recs:
+            if not r.get('small') or r.get('problems'):
+                continue
+            sysrec = {'nbPub': r['nbPub'], 'gates': [list(g) for g in (r['gates'] or [])], 'size': r['size'], 'nbVars': r['nbVars'], 'recS': r['recS']}
+            k = json.dumps(sysrec, sort_keys=True)
+            if k in seen:
+                continue
+            seen.add(k)
+            items.append(vlib.tla(sysrec))
+        if items:
+            mc = '---- MODULE PlonkTraceRec ----\nEXTENDS PlonkTrace\nRecSystems == %s\n====\n' % vlib.tla_set(items)
+            cfg = 'SPECIFICATION Spec\nCONSTANTS\n  Systems <- RecSystems\nINVARIANTS TranscriptionOK RecordedOK\nCHECK_DEADLOCK FALSE\n'
+            t = ctx.tlc('PlonkTraceRec', 'PlonkTraceRec.cfg', extra_files={'PlonkTraceRec.tla': mc, 'PlonkTraceRec.cfg': cfg},
+                        workers=4, expect=('ok', 'invariant'), timeout=1800)
+            ctx.traces += len(items)
+            if t.status != 'ok':
+                ctx.report('plonk setup: recorded permutation rejected by PlonkTrace.tla (%s)' % t.violated,
+                           {'tlc_tail': t.output.splitlines()[-40:]})
+    ctx.extra['key_records'] = len(recs)
+
+
+def re_digits(s):
+    import re
+    return re.sub(r'\d+', 'N', s)[:140]
+
+
+def sigma_ok(r):
+    rec = r['rec']
+    n = len(r['layout']['commits'])
+    if len(rec['sigmaOwn']) != n or not all(rec['sigmaOwn']):
+        return False
+    return not any(rec['sigmaCross'][j][k] for j in range(len(rec['sigmaCross'])) for k in range(len(rec['sigmaCross'][j])) if j != k)
+
+
+def sizes_ok(r):
+    lay, rec = r['layout'], r['rec']
+    n = len(lay['commits'])
+    priv = sum(len(c['priv']) for c in lay['commits'])
+    return (rec['lenVkK'] == lay['nbPub'] + n and rec['lenPkK'] == lay['nbWires'] - lay['nbPub'] - n - priv
+            and rec['ckSizes'] == [len(c['priv']) for c in lay['commits']] and rec['nbVkCommitKeys'] == n)
